@@ -2,7 +2,10 @@ package rules
 
 import (
 	"fmt"
+	"go/constant"
 	"go/token"
+	"go/types"
+	"strings"
 
 	"golang.org/x/tools/go/ssa"
 
@@ -20,6 +23,7 @@ func c13(c *Ctx) {
 	c13events(c)
 	c13diff(c)
 	c13resolver(c)
+	c13reload(c)
 }
 
 const discovPkg = "core/discov"
@@ -650,4 +654,219 @@ func c13resolver(c *Ctx) {
 		}
 	}
 	c.R.Min(rule, 4, "subsetSize, subset, update closure, Build")
+}
+
+// ---------------------------------------------------------------- additional rules (reload protocol, copies, filter loop)
+
+// earlyExitLoops reports range/for loops of f whose exit block is reachable from
+// inside the body (break / return do not count: only edges into the loop's own
+// "done" block other than from its header).
+func earlyExitLoops(f *ssa.Function) []string {
+	var out []string
+	for _, b := range f.Blocks {
+		if !strings.HasSuffix(b.Comment, ".done") {
+			continue
+		}
+		kind := strings.TrimSuffix(b.Comment, ".done")
+		if !nameIn(kind, []string{"rangeindex", "rangeiter", "rangechan", "for", "rangeint"}) {
+			continue
+		}
+		for _, p := range b.Preds {
+			if p.Comment != kind+".loop" {
+				out = append(out, fmt.Sprintf("%s loop left from block %q", kind, p.Comment))
+			}
+		}
+	}
+	return out
+}
+
+// errorfWrapViolations: fmt.Errorf calls in f that format an error operand with a verb other than %w.
+func errorfWrapViolations(c *Ctx, f *ssa.Function) (bad []string, sites int) {
+	errT := types.Universe.Lookup("error").Type().Underlying().(*types.Interface)
+	for _, b := range f.Blocks {
+		for _, ins := range b.Instrs {
+			call, ok := ins.(*ssa.Call)
+			if !ok || calleeName(call.Common()) != "fmt.Errorf" || len(call.Call.Args) != 2 {
+				continue
+			}
+			fc, ok := call.Call.Args[0].(*ssa.Const)
+			if !ok || fc.Value == nil {
+				continue
+			}
+			format := constant.StringVal(fc.Value)
+			// collect verbs
+			var verbs []byte
+			for i := 0; i < len(format); i++ {
+				if format[i] != '%' {
+					continue
+				}
+				j := i + 1
+				for j < len(format) && strings.IndexByte("+-# 0123456789.[]*", format[j]) >= 0 {
+					j++
+				}
+				if j < len(format) {
+					if format[j] != '%' {
+						verbs = append(verbs, format[j])
+					}
+					i = j
+				}
+			}
+			// variadic args: a slice of an array alloc; stores into its elements
+			sl, ok := call.Call.Args[1].(*ssa.Slice)
+			if !ok {
+				continue
+			}
+			al, ok := sl.X.(*ssa.Alloc)
+			if !ok {
+				continue
+			}
+			for _, ref := range *al.Referrers() {
+				ia, ok := ref.(*ssa.IndexAddr)
+				if !ok {
+					continue
+				}
+				idx, ok := ia.Index.(*ssa.Const)
+				if !ok {
+					continue
+				}
+				k := int(idx.Int64())
+				for _, r2 := range *ia.Referrers() {
+					st, ok := r2.(*ssa.Store)
+					if !ok {
+						continue
+					}
+					v := st.Val
+					switch mi := v.(type) {
+					case *ssa.MakeInterface:
+						v = mi.X
+					case *ssa.ChangeInterface:
+						v = mi.X
+					}
+					if types.Implements(v.Type(), errT) || (types.IsInterface(v.Type()) && types.Implements(v.Type(), errT)) {
+						sites++
+						if k >= len(verbs) || verbs[k] != 'w' {
+							vb := byte('?')
+							if k < len(verbs) {
+								vb = verbs[k]
+							}
+							bad = append(bad, fmt.Sprintf("%s: error operand #%d formatted with %%%c instead of %%w in %q (errors.Is on the result no longer sees the cause)", c.P.Pos(call.Pos()), k, vb, format))
+						}
+					}
+				}
+			}
+		}
+	}
+	return bad, sites
+}
+
+func c13reload(c *Ctx) {
+	rule := "C13.R7"
+	if f := c.fn(rule, discovInt, "(*cluster).watchStream"); f != nil {
+		bad, sites := errorfWrapViolations(c, f)
+		o := c.R.Check(len(bad) == 0 && sites >= 2, rule, discovInt+".(*cluster).watchStream#wrap", "the errors returned for a cancelled / failed watch stream wrap the etcd error with %w, so that watch() can recognise a compaction with errors.Is and reload", posOf(c, f), fmt.Sprintf("%v (error operands found: %d)", bad, sites), bad, sites)
+		o.Sites = sites
+	}
+	if f := c.fn(rule, discovInt, "(*cluster).watch"); f != nil {
+		ps := c.paths(rule, f, px.Config{MaxVisits: 2})
+		ws := calleeIs(discovInt + ".(*cluster).watchStream")
+		ld := calleeIs(discovInt + ".(*cluster).load")
+		seen := 0
+		held := c.forall(rule, discovInt+".(*cluster).watch", "when the stream error is a compaction (errors.Is(err, rpctypes.ErrCompacted)) and a revision was in use, the full snapshot is reloaded and watching resumes from the reloaded revision", f, ps, func(p *px.Path) (bool, string) {
+			for _, e := range p.All(calleeIs("errors.Is")) {
+				if p.Abs(e.Res).K != px.True {
+					continue
+				}
+				seen++
+				if r := e.Call.Args[0].Strip(false); r.Kind != px.KCall || !ws(&px.Event{Kind: px.EvCall, Call: r.Call}) {
+					return false, "the tested error is not the stream's error"
+				}
+				if !px.IsGlobalLoad(e.Call.Args[1], "go.etcd.io/etcd/api/v3/v3rpc/rpctypes", "ErrCompacted") {
+					return false, "the error is not compared with rpctypes.ErrCompacted"
+				}
+				// a load follows before the next watchStream
+				var l *px.Event
+				for i := e.Seq + 1; i < len(p.Events); i++ {
+					x := &p.Events[i]
+					if ld(x) {
+						l = x
+						break
+					}
+					if ws(x) {
+						break
+					}
+				}
+				if l == nil && p.Exit != px.ExitCut {
+					return false, "a compacted stream is retried without reloading the snapshot"
+				}
+				if l != nil {
+					// the next watchStream uses the reloaded revision
+					for i := l.Seq + 1; i < len(p.Events); i++ {
+						x := &p.Events[i]
+						if ws(x) {
+							if x.Call.Args[3].Strip(false) != l.Res {
+								return false, "watching resumes from a revision other than the reloaded one"
+							}
+							break
+						}
+					}
+				}
+			}
+			return true, ""
+		})
+		if held && seen == 0 {
+			c.R.Undecided(rule, discovInt+".(*cluster).watch#reach", "the compaction branch is recognised", "no errors.Is(err, ErrCompacted) test found on any path")
+		}
+	}
+	// dispatch works on a private copy of the listener slice taken under the lock
+	for _, m := range []string{"handleWatchEvents", "handleChanges"} {
+		f := c.fn(rule, discovInt, "(*cluster)."+m)
+		if f == nil {
+			continue
+		}
+		ps := c.paths(rule, f, px.Config{MaxVisits: 2, MaxPaths: 200000})
+		n := 0
+		c.forall(rule, discovInt+".(*cluster)."+m+"#copy", "listeners are called from a private copy of watcher.listeners made while the cluster lock is held (Unmonitor edits the shared slice in place)", f, ps, func(p *px.Path) (bool, string) {
+			w := 0
+			var copies []*px.Sym
+			for i := range p.Events {
+				e := &p.Events[i]
+				switch {
+				case lockOn("lock", "Lock", "RLock")(e):
+					w++
+				case lockOn("lock", "Unlock", "RUnlock")(e):
+					w--
+				case e.Kind == px.EvCall && e.Call.Builtin == "append" && len(e.Call.Args) == 2 && px.IsNilConst(e.Call.Args[0]) && px.IsFieldLoad(e.Call.Args[1], "listeners", nil):
+					if w <= 0 {
+						return false, "the listener slice is copied without holding the lock"
+					}
+					copies = append(copies, e.Res)
+				case e.Kind == px.EvCall && e.Call.Method != nil && (e.Call.Method.Name() == "OnAdd" || e.Call.Method.Name() == "OnDelete"):
+					n++
+					ok := false
+					for _, cp := range copies {
+						if dependsOn(p, e.Call.Recv, cp) {
+							ok = true
+						}
+					}
+					if !ok {
+						return false, "a listener is taken from the shared watcher.listeners slice instead of a private copy: an Unmonitor during delivery shifts the slice and a listener is skipped"
+					}
+				}
+			}
+			return true, ""
+		})
+		_ = n
+	}
+	// the container's filter loop has no early exit (a key may be listed more than once after a replayed PUT)
+	if f := c.fn(rule, discovPkg, "(*container).doRemoveKey"); f != nil {
+		ee := earlyExitLoops(f)
+		loops := 0
+		for _, b := range f.Blocks {
+			if nameIn(b.Comment, []string{"rangeindex.done", "rangeiter.done", "for.done"}) {
+				loops++
+			}
+		}
+		c.R.Check(len(ee) == 0 && loops >= 1, rule, discovPkg+".(*container).doRemoveKey#all", "the key is filtered out of values[value] completely: the loop visits every element (a replayed PUT lists the key twice)", posOf(c, f), fmt.Sprintf("%v (loops: %d)", ee, loops), ee, loops)
+	}
+	c.R.Min(rule, 5, "watchStream wrap, watch reload, 2 listener copies, filter loop")
 }
